@@ -88,7 +88,23 @@ def r10_1(ctx, rc):
     # after the callback returned
     users_done = [x.id for x in sg.nodes
                   if x.kind == 'ret' and x.callee == 'USER']
-    fcr = R.executor + '.file_comparison_result'
+    fcr0 = R.executor + '.file_comparison_result'
+    ctx.E.func(fcr0)
+    # the comparison itself or any function that wraps it
+    fcr = {fcr0}
+    grew = True
+    while grew:
+        grew = False
+        for f in ctx.prog.funcs.values():
+            if f.qualname in fcr or f.name in ('exec', 'read'):
+                continue
+            if any(isinstance(g, Func) and g.qualname in fcr
+                   for c in ctx.prog.calls_in(f)
+                   for g in ctx.prog.resolve_call(c, f)) and (
+                       f.cls == R.executor or f.cls == R.builder) and \
+                    len(f.params) == 2:
+                fcr.add(f.qualname)
+                grew = True
     fin = C + '.finish_building_file'
     for name, guard in (
             ('fresh comparison result', lambda x: Q.is_call(x, fcr)),
